@@ -3,20 +3,23 @@ from .common import *
 from .codewrite import *
 from . import patches
 
-PER_TARGET = True      # every rule below looks at one target configuration at a time (check.py may fork one worker per target)
+PER_TARGET = True
+NEEDS_WS = True
+HOST_TRIPLE = "x86_64-unknown-linux-gnu"      # every rule below looks at one target configuration at a time (check.py may fork one worker per target)
 DECIDED = ("between caller and fake only the emitted entry and trampoline run; from their decoded instruction lists (all install roots, all "
            "path variants, all entry classes): every instruction is an unconditional branch, a NOP or a move of an immediate/literal into "
            "the scratch register (R13.1: no stack effect, no call, no flags consumer, no memory store); the registers written are within the "
            "target ABI's caller-saved, non-argument, non-result set — x86-64 {rax,r10,r11}, AArch64 {x9..x17}, ARM {r12} (R13.2); load and "
            "branch use the same register (R13.3). The boolean stub, which replaces the callee rather than redirecting to one, may write "
            "the result register. R13.4: the sequences transfer to the trampoline / the replacement for every address pair (the decision of "
-           "C01 R1.1 / C15 / C16: arguments cannot arrive unchanged at a fake the jump does not reach).")
+           "C01 R1.1 / C15 / C16: arguments cannot arrive unchanged at a fake the jump does not reach). R13.5: every function fake! generates has the ABI of the "
+           "fn-pointer type it is recorded under (C08 R8.4 on the host harness): the fake reads its arguments where the caller put them.")
 NOT_DECIDED = "nothing beyond the processor executing the decoded instructions as tabulated"
 
 SCRATCH, RESULT = patches.SCRATCH, patches.RESULT
 
 
-def run(ck, models, tier):
+def run(ck, models, tier, ws):
     ck.decided, ck.not_decided = DECIDED, NOT_DECIDED
     ck.trusted += ["rustc MIR", "the three decode tables in analysis/isa.py", "System V / Win64 / AAPCS64 / AAPCS32 register roles"]
     for tm in models:
@@ -29,3 +32,9 @@ def run(ck, models, tier):
         # R13.4 the arguments get to the fake at all: entry -> trampoline -> replacement (shared decision, see patches.reach_obligations)
         k = patches.reach_obligations(ck, "R13.4", tm, lambda r: True, "call-reaches-fake")
         ck.floor("R13.4", "patches-with-decided-destination", k, 12 if tm.arch != "arm" else 18, tm.target)
+        # R13.5 ... and the fake reads them where the caller put them: the function fake! generates has the ABI of the fn-pointer type it is
+        # recorded (and gate-checked against the target) under (C08 R8.4; macro expansion is target-independent, decided on the host harness)
+        if tm.target.startswith(HOST_TRIPLE):
+            from .c08 import generated_convention_obligations
+            k5 = generated_convention_obligations(ck, tm, tier, ws, "R13.5")
+            ck.floor("R13.5", "fake-arms-with-decided-abi", k5, 52, tm.target)
